@@ -1,6 +1,7 @@
 //! C03 — filter chains, fan-out isolation, error handler calls.
 //! case: ( node_level L ( (fails (filter ...)) ... ) ( attached ... ) )
-//! filter: (0 r) scripted (0=Accept 1=Neutral 2=Reject) | (1 lvl) ThresholdFilter
+//! filter: (0 r) scripted (0=Accept 1=Neutral 2=Reject) | (1 lvl) ThresholdFilter behind the recording
+//!         wrapper | (2 lvl) ThresholdFilter attached directly (its consultations are not recorded)
 //! result: event list — (0 app k) consult, (1 app) deliver, (2 app) handler
 use vh::util::*;
 use vh::val::Val;
@@ -299,6 +300,12 @@ fn run(case: &Val) -> Val {
         let mut ab = Appender::builder();
         for (k, f) in a[1].l().iter().enumerate() {
             let f = f.l();
+            if f[0].n() == 2 {
+                // the crate's ThresholdFilter attached directly (no recording wrapper between the
+                // appender and the filter, so nothing a wrapper would hide stays hidden)
+                ab = ab.filter(Box::new(ThresholdFilter::new(level_filter(f[1].n()))));
+                continue;
+            }
             let inner: Box<dyn log4rs::filter::Filter> = match f[0].n() {
                 0 => Box::new(FixedFilter(f[1].n() as u8)),
                 _ => Box::new(ThresholdFilter::new(level_filter(f[1].n()))),
